@@ -4,7 +4,7 @@
  * uv_write2/uv_try_write2 refusal table.  One scenario per process; program on stdin:
  *   server <sid> t4|t6|un imm|defer|never     raw <cid> <sid>     uvc <cid> <sid>     run <n>
  *   inject <errno>...      accept <sid> [busy]     drain <sid>     closesrv <sid>     closecli <cid>
- *   badconnect <cid> tcp|pipe|long|longnt [close]     ipc <kinds> <late|imm|N>     wcheck     end
+ *   badconnect <cid> tcp|pipe|long|longnt [close]     dblconnect <cid> <cid>     ipc <kinds> <late|imm|N>     wcheck     end
  * Output: one line per API result / callback / observation (see checks/c07_sim.py). */
 #include <uv.h>
 #include <stdio.h>
@@ -48,8 +48,10 @@ static uv_stream_t* new_stream(int kind) {      /* 0 t4, 1 t6, 2 unix */
 
 static int do_accept(int sid, int busy) {
   server_t* s = &srv[sid];
-  uv_stream_t* c = new_stream(s->kind);
+  uv_stream_t* c;
   int r;
+  if (!s->alive) { printf("skip accept %d (server closed)\n", sid); return UV_EAGAIN; }   /* handle memory may be gone */
+  c = new_stream(s->kind);
   if (busy) { c->io_watcher.fd = 900; }
   r = uv_accept(s->h, c);
   if (busy) c->io_watcher.fd = -1;
@@ -256,6 +258,15 @@ int main(void) {
       c->ret = r;
       printf("badconnect %d %s r=%d\n", cid, w[2], r);
       if (n > 3) { uv_close((uv_handle_t*) c->h, free_cb); c->closed = 1; printf("closecli %d\n", cid); }
+    } else if (!strcmp(w[0], "dblconnect") && n == 3) {
+      /* two uv_pipe_connect() on one handle while the first is pending (both are accepted by the API) */
+      int a = atoi(w[1]), b = atoi(w[2]); char path[96];
+      cli[a].used = 2; cli[b].used = 3; cli[a].req.data = (void*)(long) a; cli[b].req.data = (void*)(long) b;
+      cli[a].h = cli[b].h = new_stream(2);
+      snprintf(path, sizeof path, "/var/tmp/c07sim-%d-missing.sock", pid);
+      cli[a].ret = uv_pipe_connect2(&cli[a].req, (uv_pipe_t*) cli[a].h, path, strlen(path), 0, connect_cb);
+      cli[b].ret = uv_pipe_connect2(&cli[b].req, (uv_pipe_t*) cli[b].h, path, strlen(path), 0, connect_cb);
+      printf("dblconnect %d r=%d %d r=%d\n", a, cli[a].ret, b, cli[b].ret);
     } else if (!strcmp(w[0], "ipc") && n == 3) { do_ipc(w[1], w[2]);
     } else if (!strcmp(w[0], "wcheck")) { do_wcheck();
     } else if (!strcmp(w[0], "end")) { break;
@@ -272,7 +283,7 @@ int main(void) {
   for (int i = 0; i < MAXN; i++) if (cli[i].used) {
     client_t* c = &cli[i]; int fd = -1;
     if (c->used == 1 && !c->closed) { if (c->raw) fd = c->fd; else uv_fileno((uv_handle_t*) c->h, &fd); }
-    printf("cli %d kind=%s ret=%d cbs=%d status=%d peer=%s\n", i, c->used == 2 ? "bad" : c->raw ? "raw" : "uvc", c->ret, c->cbs, c->status,
+    printf("cli %d kind=%s ret=%d cbs=%d status=%d peer=%s\n", i, c->used >= 2 ? "bad" : c->raw ? "raw" : "uvc", c->ret, c->cbs, c->status,
            c->closed ? "self-closed" : fd >= 0 ? peer_state(fd) : "nofd");
   }
   for (int i = 0; i < MAXN; i++) if (srv[i].h) printf("srv %d alive=%d announced=%d claimed=%d\n", i, srv[i].alive, srv[i].announced, srv[i].claimed);
@@ -280,7 +291,7 @@ int main(void) {
   /* teardown: everything closed, every connect callback must have run by now */
   for (int i = 0; i < naccd; i++) uv_close((uv_handle_t*) accd[i].h, free_cb);
   for (int i = 0; i < MAXN; i++) { if (srv[i].h && srv[i].alive) { uv_close((uv_handle_t*) srv[i].h, free_cb); if (srv[i].kind == 2) unlink(srv[i].path); } }
-  for (int i = 0; i < MAXN; i++) if (cli[i].used && !cli[i].closed) { if (cli[i].raw) close(cli[i].fd); else uv_close((uv_handle_t*) cli[i].h, free_cb); }
+  for (int i = 0; i < MAXN; i++) if (cli[i].used && cli[i].used != 3 && !cli[i].closed) { if (cli[i].raw) close(cli[i].fd); else uv_close((uv_handle_t*) cli[i].h, free_cb); }
   run_n(6);
   for (int i = 0; i < MAXN; i++) if (cli[i].used && !cli[i].raw) printf("final %d ret=%d cbs=%d status=%d\n", i, cli[i].ret, cli[i].cbs, cli[i].status);
   printf("loop-alive=%d close=%d\n", uv_loop_alive(loop), uv_loop_close(loop));
